@@ -5,8 +5,8 @@ VARIABLE x
 Init == x = 0
 Next == UNCHANGED x
 Verdict(o) ==
-  IF o.obs.result \notin {"ok", "writeerr"} THEN "parser-did-not-return"           \* hang / panic / crash (runaway allocation)
-  ELSE IF ~Total(o.obs.ans) THEN "not-total"
+  IF o.obs.result \notin {"ok", "writeerr", "exception"} THEN "parser-did-not-return"           \* hang / panic / crash (runaway allocation)
+  ELSE IF o.kind # "pysql" /\ ~Total(o.obs.ans) THEN "not-total"
   ELSE IF o.kind = "valid" THEN
        IF o.obs.ans.result # "accept" THEN "valid-schema-rejected"
        ELSE IF o.obs.ans.counts # o.counts THEN "declared-fields-differ"
@@ -16,6 +16,12 @@ Verdict(o) ==
   ELSE IF o.kind = "bed" THEN
        IF o.obs.result # "ok" THEN "write-failed"
        ELSE IF ~BedSchemaOK(o.n, o.obs.ans, o.obs.storedFields, o.obs.headerCount) THEN "generated-bed-schema"
+       ELSE "ok"
+  ELSE IF o.kind = "pysql" THEN
+       \* the Python binding returns the stored schema verbatim; parsed, it has the fields of the last declaration
+       IF o.obs.result # "ok" THEN "python-sql-failed"
+       ELSE IF o.obs.same # 1 THEN "python-sql-not-verbatim"
+       ELSE IF o.obs.nfields # o.hfc THEN "python-sql-fields"
        ELSE "ok"
   ELSE "ok"
 Post == /\ \A i \in 1..Len(Obs) : LET v == Verdict(Obs[i]) IN (v = "ok" \/ PrintT(<<"BAD", i, v>>))
